@@ -298,7 +298,7 @@ def structured_cases(rng, quick):
     for elt, rz, rz_nz, rs in (('crat', zq, zq_nz, rq), ('cplx', zf, zf_nz, rf)):
         g = rng.fork("structured-" + elt)
         # ---- related operand pairs: z op z, z op conj z, z op -z, z op -conj z, z op iz, z op (im z, re z)
-        nz = (4 if elt == 'crat' else 6) if quick else 40
+        nz = (4 if elt == 'crat' else 6) if quick else 28
         for t in range(nz):
             z = rz_nz(g) if t % 3 else tie_parts(elt, g)          # every third z has |re| = |im| as well
             if not nonzero(z): continue
@@ -311,7 +311,7 @@ def structured_cases(rng, quick):
             cases.append(mk(elt, "cx.cmp3", [z, z, related(z, "swap")], elt + "-related-order"))
         # ---- |re| = |im| on either side, the other operand arbitrary: equal parts (x, x) and one of the three other
         #      sign patterns per draw, as the right operand of every operator and as the left operand of one
-        for t in range((3 if elt == 'crat' else 6) if quick else 40):
+        for t in range((3 if elt == 'crat' else 6) if quick else 24):
             x = rq_nz(g) if elt == 'crat' else rf_nz(g)
             pats = [(x, x), g.choice([(x, -x), (-x, x), (-x, -x)])] if quick else [(x, x), (x, -x), (-x, x), (-x, -x)]
             for w in pats:
@@ -322,10 +322,9 @@ def structured_cases(rng, quick):
         us = units(elt)
         for u in us:
             z = rz_nz(g)
-            for op in OPS:                                        # quick: the unit on a random side; thorough: on both sides
-                side = g.below(2)
-                if side == 0 or not quick: cases.append(mk(elt, "cx.pair." + op, [z, u], elt + "-units"))
-                if side == 1 or not quick: cases.append(mk(elt, "cx.pair." + op, [u, z], elt + "-units"))
+            for op in OPS:                                        # the unit on either side
+                cases.append(mk(elt, "cx.pair." + op, [z, u], elt + "-units"))
+                cases.append(mk(elt, "cx.pair." + op, [u, z], elt + "-units"))
             for k in ("neg", "conj", "abs_sqr", "ident") + (("abs", "sabs") if elt == 'cplx' else ()):
                 cases.append(mk(elt, "cx." + k, [u], elt + "-units-unary"))
         for t in range(8 if quick else len(us) ** 2):
@@ -333,7 +332,7 @@ def structured_cases(rng, quick):
             for op in OPS:
                 cases.append(mk(elt, "cx.pair." + op, [u, v], elt + "-units"))
         # ---- real scalars 1, -1, 2, -2, 1/2, -1/2, 0 and scalars equal to a part of the complex operand
-        for t in range(2 if quick else 12):
+        for t in range(2 if quick else 8):
             z = rz_nz(g)
             scal = unit_scalars(elt) + [z[0], -z[0], z[1]]
             for r in scal:
